@@ -96,7 +96,7 @@ theorem large_write_rejected (s : WState) (buf : Bytes) (f : FileData)
     (hf : s.files.getLast? = some f) (hl : f.largeFile = false) (hne : buf ≠ [])
     (hbig : s.statsBytes + buf.length > 0xFFFFFFFF) (fa : Option Nat) (d : Dev) :
     ∃ e s' d', writeData buf s fa d = (.ok (.error e, s'), d') ∧
-      ((e = .io .other ∧ s'.inner = .closed) ∨ (e = .io .injected ∧ s' = s)) := by
+      ((e = .io .other ∧ s'.inner = .closed) ∨ (e = .io d.fkind ∧ s' = s)) := by
   have hb : buf.isEmpty = false := by cases buf <;> simp_all
   have hbig' : decide (s.statsBytes + buf.length > 0xFFFFFFFF) = true := by simpa using hbig
   unfold writeData
